@@ -29,7 +29,7 @@ POINTS = ['lazy_required', 'provided_hash', 'provided_eq', 'name_hash', 'name_bo
           'uncached_entry', 'uncached_exit', 'spec_weakref', 'spec_subscribe', 'providedBy_descr', 'provides_descr',
           'conform', 'factory', 'value_del', 'generation_attr', 'generation_attr_2nd', 'ro_attr', 'super_self']
 ACTIONS = ['register', 'unregister', 'subscribe', 'unsubscribe', 'changed', 'rebase', 'reenter_same',
-           'reenter_other', 'raise', 'gc', 'register_flood', 'changed_flood', 'reenter_then_base']
+           'reenter_other', 'raise', 'gc', 'register_flood', 'changed_flood', 'reenter_then_base', 'spec_rebase', 'declare', 'rebuild']
 
 
 class Boom(Exception):
@@ -186,6 +186,7 @@ class Case:
         self.IR = RC('IR', (self.IR0,), {}, __module__=mod)
         if hostile_req:
             self.IR.role = 'required'
+        self.IDecl = InterfaceClass('IDecl', (Interface,), {}, __module__=mod)
         self.IP = PC('IP', (Interface,), {}, __module__=mod)
         if hostile_prov:
             self.IP.role = 'provided'
@@ -436,6 +437,26 @@ class Case:
             self.reentrant_results.append(self.call_entry(self.reg, self.entry, hostile=False))
             self.release_audit(lambda: (self.mutate('top', 'subscribe', [self.IR0], self.IP, self.newval()),
                                         self.mutate('top', 'register', [self.IR0], self.IP, 'zz', self.newval())))
+        elif a == 'spec_rebase':
+            # the required specification being looked up loses its base: what the registries above registered for that base
+            # does not apply any more (the invalidation arrives through the specification's dependents)
+            def rb_():
+                nb = (Interface,) if self.IR.__bases__ != (Interface,) else (self.IR0,)
+                self.IR.__bases__ = nb
+                if self.IR_twin is not None:
+                    # (the equal-keyed re-definition stays a re-definition of the same thing: to the library the two are one
+                    # interface, sharing cache entries)
+                    self.IR_twin.__bases__ = nb
+            self.release_audit(rb_)
+        elif a == 'declare':
+            # the adapted object's class is declared to implement something else as well (its declaration, which the
+            # adapting entry points computed a moment ago, changes)
+            def dc_():
+                classImplements(type(self.obj) if not isinstance(self.obj, super) else self.obj.__self_class__, self.IDecl)
+            self.release_audit(dc_)
+        elif a == 'rebuild':
+            # the registry is rebuilt (its lookup object is replaced) while one of its lookups is running
+            self.release_audit(lambda: self.reg.rebuild())
         elif a == 'raise':
             raise Boom(self.point)
         elif a == 'gc':
